@@ -16,6 +16,8 @@ func (f HandlerFunc) ServeHTTP(w http.ResponseWriter, r *http.Request) {
 	c := &Context{}
 	c.Init(w, r)
 	f(c)
+	// write the recorded status, like the router does at the end of a request.
+	c.writer.ensureWriteHeader()
 }
 
 // HandlersChain middleware handlers chain definition
